@@ -170,7 +170,7 @@ def gen_compart(rnd, i):
     model = STOCH_MODELS[i % len(STOCH_MODELS)]
     c = compart.gen_case(rnd, model=model, dynamics='stochastic')
     c['kind'] = 'compart'
-    c['prerun'] = False
+    c['prerun'] = bool(c.get('vi_override'))       # only together with an overridden initialInfectivities
     c['inst'] = [None, 'a', None][(i // len(STOCH_MODELS)) % 3]
     c['seq'] = (i // (3 * len(STOCH_MODELS))) % 2 == 1 or rnd.random() < 0.2
     if rnd.random() < 0.3:
